@@ -18,9 +18,9 @@ def clone(node):
     for f in node._fields:
         if hasattr(node, f):
             setattr(new, f, clone(getattr(node, f)))
-    for a in ("lineno", "col_offset", "end_lineno", "end_col_offset"):
+    for a in ("lineno", "col_offset", "end_lineno", "end_col_offset", "_inline", "_inline_call", "_inline_return", "_inline_init"):
         if hasattr(node, a):
-            setattr(new, a, getattr(node, a))
+            setattr(new, a, getattr(node, a))  # (the _inline* marks of the normaliser give inlined blocks their control flow)
     return new
 
 
@@ -213,7 +213,12 @@ class Deps:
             out.append(("value", value))
         elif isinstance(target, (ast.Tuple, ast.List)):
             if any(is_name(x, name) for x in ast.walk(target)):
-                out.append(("value", value))
+                # element-wise when both sides are displays of the same length, otherwise "some part of value"
+                if isinstance(value, (ast.Tuple, ast.List)) and len(value.elts) == len(target.elts) and not any(isinstance(x, ast.Starred) for x in [*target.elts, *value.elts]):
+                    for t, v in zip(target.elts, value.elts):
+                        Deps._target_defs(t, v, name, out)
+                else:
+                    out.append(("unpack", value))
 
     def owner(self, name: str) -> FunctionInfo | None:
         cur: FunctionInfo | None = self.fi
